@@ -158,11 +158,20 @@ class Diagonal(LinearOperator):
         are those listed under "norm for matrices" in the
         :func:`scico.numpy.linalg.norm` documentation.
         """
+
+        def absmin(x):
+            x = snp.abs(x)
+            return min(blk.min() for blk in x) if isinstance(x, BlockArray) else x.min()
+
+        def absmax(x):
+            x = snp.abs(x)
+            return max(blk.max() for blk in x) if isinstance(x, BlockArray) else x.max()
+
         ordfunc = {
             "fro": lambda x: snp.linalg.norm(x),
             "nuc": lambda x: snp.sum(snp.abs(x)),
-            -snp.inf: lambda x: snp.abs(x).min(),
-            snp.inf: lambda x: snp.abs(x).max(),
+            -snp.inf: absmin,
+            snp.inf: absmax,
         }
         mord = ord
         if mord is None:
@@ -173,7 +182,16 @@ class Diagonal(LinearOperator):
             mord = snp.inf
         if mord not in ordfunc:
             raise ValueError(f"Invalid value {ord} for parameter ord.")
-        return ordfunc[mord](self._diagonal)
+        if self.output_shape != self.input_shape:
+            raise ValueError(
+                "Method norm is only defined when the diagonal does not broadcast the "
+                f"input (input shape {self.input_shape}, output shape {self.output_shape})."
+            )
+        diagonal = self._diagonal
+        if diagonal.shape != self.input_shape:
+            # The matrix of the operator has the diagonal broadcast to the input shape.
+            diagonal = diagonal * snp.ones(self.input_shape, dtype=diagonal.dtype)
+        return ordfunc[mord](diagonal)
 
 
 class ScaledIdentity(Diagonal):
@@ -284,12 +302,14 @@ class ScaledIdentity(Diagonal):
         :func:`scico.numpy.linalg.norm` documentation.
         """
         N = self.input_size
+        # For a nested input shape the scalar is stored once per block.
+        scalar = self._diagonal[0] if is_nested(self.input_shape) else self._diagonal
         if ord is None or ord == "fro":
-            return snp.abs(self._diagonal) * snp.sqrt(N)
+            return snp.abs(scalar) * snp.sqrt(N)
         elif ord == "nuc":
-            return snp.abs(self._diagonal) * N
+            return snp.abs(scalar) * N
         elif ord in (-snp.inf, -1, -2, 1, 2, snp.inf):
-            return snp.abs(self._diagonal)
+            return snp.abs(scalar)
         else:
             raise ValueError(f"Invalid value {ord} for parameter ord.")
 
